@@ -301,6 +301,12 @@ impl Check for C06 {
     fn families(&self, _tier: Tier) -> Vec<&'static str> {
         vec!["schedule", "schedule", "faults"]
     }
+    fn default_runs(&self, tier: Tier) -> u64 {
+        match tier {
+            Tier::Quick => 2400,
+            Tier::Thorough => 150000,
+        }
+    }
     fn gen(&self, seed: u64, family: &str, tier: Tier) -> Case {
         gen_batch_case("C06", seed, family, tier, false)
     }
